@@ -265,7 +265,25 @@ type batch struct {
 }
 
 func childEnv() []string {
-	return []string{"GOTRACEBACK=all", "GOMAXPROCS=4"}
+	return []string{"GOTRACEBACK=all", "GOMAXPROCS=2"}
+}
+
+var (
+	hangMu   sync.Mutex
+	hangDone = map[string]bool{}
+)
+
+// A hang site confirmed once in this run (3/3 alone) is not confirmed again: later suspects at the
+// same site are only counted.
+func hangConfirmed(class string) bool {
+	hangMu.Lock()
+	defer hangMu.Unlock()
+	return hangDone[class]
+}
+func markHangConfirmed(class string) {
+	hangMu.Lock()
+	hangDone[class] = true
+	hangMu.Unlock()
 }
 
 // runOne re-runs a single script in a fresh child (self-test first) and reports what happened:
@@ -416,6 +434,11 @@ func runBatch(b batch, bi int) {
 		case res.ExitCode == exitHang && lastRes != nil:
 			// a hang is a violation only when it reproduces 3/3 alone with the same handler on the stack
 			site := hangSite(lastRes.HangStack)
+			if hangConfirmed("hang/" + site) {
+				run.Count("net.hang_suspects_at_a_site_already_confirmed_in_this_run", 1)
+				cur = lastRes.Idx + 1
+				continue
+			}
 			var sameN atomic.Int32
 			vlib.Parallel(3, 3, func(k int) {
 				// the confirmation runs get twice the time: a loop bounded by a 32-bit count ends, an unbounded one does not
@@ -431,6 +454,7 @@ func runBatch(b batch, bi int) {
 			rb, _ := json.Marshal(lastRes)
 			w.Result = rb
 			if same == 3 {
+				markHangConfirmed("hang/" + site)
 				run.Violation("hang/"+site, fmt.Sprintf("script does not finish within %v (and within %v in 3/3 runs alone), Run is inside %s", scriptWdog, 2*scriptWdog, site), w)
 			} else {
 				run.Inconclusive("script %d exceeded the watchdog once (inside %s) but reproduced only %d/3 times", lastRes.Idx, site, same)
@@ -448,6 +472,14 @@ func runBatch(b batch, bi int) {
 			kind, msg, frames := crashInfo(logs)
 			w := mkW(dead)
 			w.LogTail = tail(crashExcerpt(logs), 5000)
+			if ex := crashExcerpt(logs); !strings.Contains(ex, "(*OneConnection).Run(") && !strings.Contains(ex, "created by github.com/piotrnar/gocoin") &&
+				!strings.Contains(ex, "txpool.HandleNetTx") {
+				// the dying goroutine was not executing the node's connection code: harness context
+				run.Inconclusive("batch %d: child died outside the node's connection code at script %d (%s: %s; %s)", bi, dead, kind, msg, strings.Join(frames, " <- "))
+				run.Count("net.harness_suspect", 1)
+				cur = dead + 1
+				continue
+			}
 			st, _, _ := runOne(seed, dead, b.synced, "dead")
 			w.Alone = st
 			var je journalEntry
@@ -535,7 +567,7 @@ func runNetwork(nScripts int, from int) {
 		// one batch in eight runs against a node that is still in initial block download
 		batches = append(batches, batch{s, e, (s/per)%8 != 7})
 	}
-	vlib.Parallel(len(batches), 10, func(i int) { runBatch(batches[i], i) })
+	vlib.Parallel(len(batches), 9, func(i int) { runBatch(batches[i], i) })
 }
 
 // ---------------------------------------------------------------------------------------------
@@ -597,7 +629,7 @@ func main() {
 	}
 
 	nScripts := run.N(5000, 400000)
-	nLib := run.N(60000, 20000000)
+	nLib := run.N(48000, 20000000)
 	var wg sync.WaitGroup
 	wg.Add(2)
 	only := os.Getenv("C18_ONLY") // debugging aid: "net" or "lib"
